@@ -2,7 +2,7 @@
 # usage: tools/confirm_seed.sh <Cxx> <i> [name]   confirm a sub-agent's seeded change in a fresh scratch worktree of /repo HEAD and file it under /verif/seeded/
 set -u
 pid=$1; i=$2; name=${3:-$pid-$i}
-src=/tmp/seed_out/$pid
+src=${SEED_SRC:-/tmp/seed_out}/$pid
 wt=/tmp/confirm_$name
 out=/verif/seeded/$name
 log=/tmp/confirm_$name.log
